@@ -98,6 +98,26 @@ def check(run):
                         ok, why = False, f'raises {e}'
                     run.check(ok, 'D3', ename if not ok else f'{ename}:{fname}:{name}[{opt_name(opt)}]', f'{ename} on {fname}: {why}', wb)
                     run.evaluations += 1
+    # a cell serialised as part of one bag and then as the root of its own: each bag round-trips (what was computed for the first is not reused
+    # with indexes that belong to it)
+    for name in ('diamond', 'chain3', 'shared-later'):
+        for opt in (OPTS[0], OPTS[5]):
+            it = Interp(prog)
+            c = bocrun.build(it, dags[name][0])
+            cm.call_method(it, c, 'to_boc', K(opt[0]), K(opt[1]), K(opt[2]))
+            for depth_, sub in enumerate(walk_first(it, c)):
+                if depth_ == 0:
+                    continue
+                tag = f'{name}[{opt_name(opt)}] then its sub-cell at depth {depth_}'
+                try:
+                    out2 = cm.call_method(it, sub, 'to_boc', K(opt[0]), K(opt[1]), K(opt[2]))
+                    back = it.call(it.getattr(prog.cls('Cell'), 'one_from_boc'), [out2], {})
+                    ok = isinstance(back, Inst) and bocrun.ckey(it, back) == bocrun.ckey(it, sub) and repr(back.attrs.get('_hash')) == repr(sub.attrs.get('_hash'))
+                    why = 'round-trips' if ok else 'parses to a different cell'
+                except RaiseEx as e:
+                    ok, why = False, f'raises {e}'
+                run.check(ok, 'D1', 'Cell.to_boc/Cell.one_from_boc[cells serialised before in another bag]' if not ok else tag, f'{tag}: {why}', w)
+                run.evaluations += 1
     # every parse hands out a fresh object: what an earlier caller did with the slice / builder it got does not show in a later parse of the same bytes
     for name in ('diamond', 'single-13bits'):
         roots = dags[name]
@@ -128,6 +148,16 @@ def check(run):
         run.fail('D2', 'Boc.__init__[garbage]', 'a string that is neither hex nor base64 is accepted', wb)
     except RaiseEx:
         run.ok('D2', 'garbage rejected')
+
+
+def walk_first(it, c):
+    """the cell and its descendants along the last references"""
+    out = [c]
+    while True:
+        refs = it.getattr(out[-1], 'refs').items
+        if not refs or len(out) > 8:
+            return out
+        out.append(refs[-1])
 
 
 def small_scope(run, prog, where, max_n):
